@@ -300,6 +300,9 @@ def run_polars_scan(rep, rng, n):
         return
     from pandera.config import get_config_context
     # the recorded crash of `sample=` on the polars backend (K_C20_polarsSampleCrash), demonstrated on every run
+    from pandera.config import reset_config_context
+    reset_config_context()
+    cfg_before = get_config_context(validation_depth_default=None)
     try:
         pap.DataFrameSchema({"a": pap.Column(int)}).validate(pl.DataFrame({"a": [1, 2, 3]}), sample=1)
         rep.count("scan:polars:sample:ok")
@@ -309,6 +312,11 @@ def run_polars_scan(rep, rng, n):
         rep.property_failure({"backend": "polars", "call": "validate(sample=1)"},
                              f"polars: internal exception escapes validate: {type(e).__name__}: {str(e)[:80]} at {leak_site(e)}",
                              region=leak_region(e))
+    if get_config_context(validation_depth_default=None) != cfg_before:
+        rep.property_failure({"backend": "polars", "call": "validate(sample=1)"},
+                             "polars: the configuration context is not as before the call (an internal exception left it)")
+        from pandera.config import reset_config_context
+        reset_config_context(cfg_before)
     for i in range(n):
         c = c03.gen_case(rng, drop_rate=0.2) if i % 2 else P.gen_case(rng)
         S, D = c["schema"], c["frame"]
@@ -326,6 +334,10 @@ def run_polars_scan(rep, rng, n):
             for obj in (df, df.lazy()):
                 if S["dropInvalid"] and not lazy:
                     continue
+                # every call starts from the pristine context (a leaked override is sticky: the polars entry points read
+                # their depth from the context they are called in, so after one leak later calls would look unchanged)
+                from pandera.config import reset_config_context
+                reset_config_context()
                 cfg0 = get_config_context(validation_depth_default=None)
                 exc = None
                 with warnings.catch_warnings():
@@ -341,8 +353,11 @@ def run_polars_scan(rep, rng, n):
                 if o.startswith("leak:"):
                     rep.property_failure(case, f"polars: internal exception escapes validate: {type(exc).__name__}: "
                                                f"{str(exc)[:80]} at {leak_site(exc)}", region=leak_region(exc))
-                elif get_config_context(validation_depth_default=None) != cfg0:
-                    rep.property_failure(case, "polars: the configuration context is not as before the call")
+                # (whatever the outcome, also an internal exception of a recorded region)
+                if get_config_context(validation_depth_default=None) != cfg0:
+                    rep.property_failure(case, f"polars: the configuration context is not as before the call (outcome {o})")
+                    from pandera.config import reset_config_context
+                    reset_config_context(cfg0)      # keep later cases independent of this one
 
 
 def replay_scan_case(rep, case):
